@@ -282,8 +282,26 @@ def gen_reordered():
     return prs
 
 
+def gen_unlisted():
+    """A slide 'deleted' the way most recipes do it: its p:sldId is removed from p:sldIdLst while the
+    relationship from the presentation part stays, so the slide part (with its notes slide and picture) is
+    still a reachable part of the package although no slide collection lists it."""
+    from pptx import Presentation
+    from pptx.util import Emu
+    prs = Presentation()
+    E = Emu(914400)
+    for i in range(3):
+        sl = prs.slides.add_slide(prs.slide_layouts[5])
+        sl.shapes.title.text = "slide made %d" % i
+        sl.shapes.add_picture(_png((0, i * 60, 0)), E, E * 2)
+        sl.notes_slide.notes_text_frame.text = "notes %d" % i
+    lst = prs.part._element.sldIdLst
+    lst.remove(list(lst)[-1])     # the last one: the first access of prs.slides renames nothing onto its name
+    return prs
+
+
 GENERATORS = [("gen:shapes", gen_shapes), ("gen:charts", gen_charts), ("gen:minimal", gen_minimal),
-              ("gen:sparse", gen_sparse), ("gen:reordered", gen_reordered)]
+              ("gen:sparse", gen_sparse), ("gen:reordered", gen_reordered), ("gen:unlisted", gen_unlisted)]
 
 
 def deck_bytes(deck_id):
